@@ -174,6 +174,55 @@ func udpRun(w *vt.Writer, r *rand.Rand, pool []*entities.InfoElement, dur time.D
 	return evals
 }
 
+// udpPeerGone: the UDP peer disappears (port closed) while the application sends and the refresher runs:
+// sends and refreshes start to fail, the refresher closes the process from the inside; an application
+// Close afterwards must still return and leave nothing behind.
+func udpPeerGone(w *vt.Writer, r *rand.Rand, pool []*entities.InfoElement) int {
+	peer, err := net.ListenUDP("udp", &net.UDPAddr{IP: net.IPv4(127, 0, 0, 1)})
+	if err != nil {
+		panic(err)
+	}
+	dom := r.Uint32()
+	ep, err := exporter.InitExportingProcess(exporter.ExporterInput{CollectorAddress: peer.LocalAddr().String(), CollectorProtocol: "udp", ObservationDomainID: dom, TempRefTimeout: 1})
+	if err != nil {
+		panic(err)
+	}
+	w.Reset(vt.Ev{"proto": "udp", "dom": vt.Limbs(dom)})
+	evals := 0
+	ies := sets.RandTemplate(r, pool, 6)
+	send := func(d sets.Desc) {
+		evals++
+		set := d.Build()
+		w.Emit(vt.Ev{"e": "SendBegin", "set": d.JSON(), "ms": ms()})
+		m0 := ms()
+		n, err := ep.SendSet(set)
+		w.Emit(vt.Ev{"e": "SendEnd", "ret": n, "err": err != nil, "ms0": m0, "ms": ms()})
+	}
+	w.Emit(vt.Ev{"e": "PeerClose", "ms": ms()})
+	peer.Close()
+	send(sets.Tmpl(256, ies))
+	deadline := time.Now().Add(time.Duration(1300+r.Intn(1200)) * time.Millisecond) // one or two refresh ticks hit the dead port
+	for time.Now().Before(deadline) {
+		send(sets.Data(r, 256, ies, 1+r.Intn(3), 20, 4000))
+		time.Sleep(time.Duration(5+r.Intn(40)) * time.Millisecond)
+	}
+	var wg sync.WaitGroup
+	for c := 0; c < 2; c++ {
+		wg.Add(1)
+		go func(c int) {
+			defer wg.Done()
+			w.Emit(vt.Ev{"e": "CloseBegin", "c": c, "ms": ms()})
+			ep.CloseConnToCollector()
+			w.Emit(vt.Ev{"e": "CloseEnd", "c": c, "ms": ms()})
+		}(c)
+	}
+	waitOrHang(w, &wg, "CloseConnToCollector (udp, peer gone)")
+	send(sets.Data(r, 256, ies, 1, 20, 4000))
+	time.Sleep(20 * time.Millisecond)
+	w.Emit(vt.Ev{"e": "End", "leaked": exporterGoroutines(), "ms": ms()})
+	return evals
+}
+
 func tcpRun(w *vt.Writer, r *rand.Rand, pool []*entities.InfoElement) int {
 	ln, err := net.Listen("tcp", "127.0.0.1:0")
 	if err != nil {
@@ -266,6 +315,9 @@ func main() {
 	}
 	for i := 0; i < ntcp; i++ {
 		evals += tcpRun(w, r, pool)
+	}
+	for i := 0; i < (ntcp+1)/2; i++ {
+		evals += udpPeerGone(w, r, pool)
 	}
 	w.Close()
 	vt.PrintSummary(vt.Summary{Events: w.Events(), Traces: w.Traces(), Evaluations: evals, Distinct: len(dist) + ntcp})
